@@ -1237,21 +1237,29 @@ func ruleDeltaSecondsUnsigned(c *Ctx, rule string) {
 			continue
 		}
 		parses, unsigned := false, false
-		instrsOf(fn, func(in ssa.Instruction) {
-			if cc := callOf(in); cc != nil {
-				if callIsPkgFunc(cc, "strconv", "ParseInt") || callIsPkgFunc(cc, "strconv", "Atoi") {
-					parses = true
-				}
-				if callIsPkgFunc(cc, "strconv", "ParseUint") {
-					parses, unsigned = true, true
-				}
+		ks := map[int64]bool{}
+		for g := range c.P.StaticTree(fn) { // (the decoder and the helpers the parsing was moved to)
+			if g.Pkg != ip {
+				continue
 			}
-		})
+			instrsOf(g, func(in ssa.Instruction) {
+				if cc := callOf(in); cc != nil {
+					if callIsPkgFunc(cc, "strconv", "ParseInt") || callIsPkgFunc(cc, "strconv", "Atoi") {
+						parses = true
+					}
+					if callIsPkgFunc(cc, "strconv", "ParseUint") {
+						parses, unsigned = true, true
+					}
+				}
+			})
+			for k := range intConstsIn(g) {
+				ks[k] = true
+			}
+		}
 		if !parses {
 			continue
 		}
 		n++
-		ks := intConstsIn(fn)
 		if unsigned || ks['+'] && ks['-'] || ks['0'] && ks['9'] {
 			continue
 		}
